@@ -10,32 +10,32 @@ import (
 // genOpts steers the shared plan generator (swarm style: every run varies
 // sizes, mixes, enabled fault kinds).
 type genOpts struct {
-	chains     []string
-	types      []string
-	maxCrashes int
-	maxFaults  int
-	maxNet     int
-	maxLN      int
-	healProb   int // percent
-	healAlways bool
-	silence    bool
+	chains        []string
+	types         []string
+	maxCrashes    int
+	maxFaults     int
+	maxNet        int
+	maxLN         int
+	healProb      int // percent
+	healAlways    bool
+	silence       bool
 	silenceAlways bool
-	inject     []string // injection templates to draw from
-	maxInject  int
-	sched      bool
-	layouts    bool
-	secondOp   bool // a second operator swap on the same channel (both spellings)
-	peerOps    bool // the peer also initiates
-	reorgs     bool
-	sites      []string
-	faultKinds []string
-	policyOps  bool
-	premiums   bool
-	flavors    []string
-	backends   []string
-	duration   []int
-	restartMs  []int
-	amounts    []uint64
+	inject        []string // injection templates to draw from
+	maxInject     int
+	sched         bool
+	layouts       bool
+	secondOp      bool // a second operator swap on the same channel (both spellings)
+	peerOps       bool // the peer also initiates
+	reorgs        bool
+	sites         []string
+	faultKinds    []string
+	policyOps     bool
+	premiums      bool
+	flavors       []string
+	backends      []string
+	duration      []int
+	restartMs     []int
+	amounts       []uint64
 }
 
 var allSites = []string{
